@@ -21,7 +21,7 @@ ASSUMPTIONS = [
     "gain/delay tolerances as stated in the property: 5 % at every interior line ('per'), 30 % median over lines ('cor'); white-noise source, records of 64..100 segment lengths (calibrated: 'per' error <= 2.4 % = half the bound, 'cor' median <= 11 %); line 1 excluded like line 0 (segment-mean removal)",
 ]
 
-_NX = st.one_of(st.sampled_from([16, 32, 64, 128, 256, 512, 1024, 2048, 4096]), st.integers(8, 300).map(lambda k: 2 * k))
+_NX = st.one_of(st.sampled_from([16, 32, 64, 128, 256, 512, 1024, 2048, 4096]), st.integers(8, 300).map(lambda k: 2 * k), st.integers(8, 300).map(lambda k: 2 * k + 1))
 
 
 @st.composite
@@ -171,7 +171,10 @@ def welch_ref(Y, R, fs, nx, nov, detrend=True):
     ms /= len(starts)
     scale = 1.0 / (fs * np.sum(w**2))
     acc *= scale
-    acc[:, :, 1:-1] *= 2  # even nx: DC and Nyquist not doubled
+    if nx % 2 == 0:
+        acc[:, :, 1:-1] *= 2  # even nx: DC and Nyquist not doubled
+    else:
+        acc[:, :, 1:] *= 2  # odd nx: there is no Nyquist line
     return acc, ms / np.sum(w**2), len(starts)
 
 
